@@ -62,3 +62,48 @@ pub(crate) fn on_fold_done<F: PrimeField>(y: &F, xn: &F, expected_h_eval: &F) {
         })
     });
 }
+
+
+/// One Lagrange-basis vector computed by the prover while the argument log is on (see
+/// [`set_argument_log`]). Field elements are stored as the bytes of their canonical
+/// representation (`PrimeField::to_repr`), one entry per row of the domain.
+#[derive(Clone, Debug, PartialEq, Eq)]
+pub struct ArgumentVector {
+    /// What the vector is. In the order in which `prover::compute_trace` produces them:
+    /// `challenges` (the phase challenges, once), then per proof every `advice` column and
+    /// every `instance` column (the table the arguments are computed from, blinding rows
+    /// included); per proof and lookup `lookup_input`, `lookup_table` (compressed
+    /// expressions), `lookup_permuted_input`, `lookup_permuted_table` (the pair returned by
+    /// `permute_expression_pair`); per proof and column set `perm_z` (the permutation product
+    /// vector after blinding); per proof and lookup `lookup_z` (the product vector of
+    /// `commit_product`); per proof and trash argument `trash` (the compressed constraint
+    /// expressions).
+    pub kind: &'static str,
+    /// The values, row by row.
+    pub values: Vec<Vec<u8>>,
+}
+
+thread_local! {
+    static ARG_ON: std::cell::Cell<bool> = const { std::cell::Cell::new(false) };
+    static ARG_LOG: RefCell<Vec<ArgumentVector>> = const { RefCell::new(Vec::new()) };
+}
+
+/// Switches the argument log of this thread on or off (off by default) and empties it.
+pub fn set_argument_log(on: bool) {
+    ARG_ON.with(|c| c.set(on));
+    ARG_LOG.with(|l| l.borrow_mut().clear());
+}
+
+/// Removes and returns the vectors logged on this thread since the last clear/take.
+pub fn take_argument_log() -> Vec<ArgumentVector> {
+    ARG_LOG.with(|l| std::mem::take(&mut *l.borrow_mut()))
+}
+
+/// Called by the prover with every vector listed in [`ArgumentVector::kind`]. Nothing is read
+/// back by the prover: the log only observes.
+pub(crate) fn on_argument_vector<F: PrimeField>(kind: &'static str, values: &[F]) {
+    if ARG_ON.with(|c| c.get()) {
+        let values = values.iter().map(repr).collect();
+        ARG_LOG.with(|l| l.borrow_mut().push(ArgumentVector { kind, values }));
+    }
+}
